@@ -358,7 +358,12 @@ def cli_matrix(tier):
                 with open(inp, 'w') as f:
                     f.write(reqs[c['req']])
             name = histsim.OUT_NAMES.get(c['out'])
-            if name is None:
+            if c['out'] == 'rel_linkdotdot':
+                tgt = os.path.join(d, 'abs out', 'deep')
+                os.makedirs(tgt, exist_ok=True)
+                os.symlink(tgt, os.path.join(cwd, 'outlnk'))
+                arg, full = name, os.path.join(d, 'abs out', 'via.out')
+            elif name is None:
                 arg, full = None, os.path.join(cwd, 'HDR.out')
             elif c['out'].startswith('abs'):
                 arg = full = os.path.join(d, 'abs out', name)
@@ -372,7 +377,12 @@ def cli_matrix(tier):
             os.makedirs(os.path.join(d, 'home'), exist_ok=True)
             env = dict(os.environ, PYTHONPATH=repo_src, TMPDIR=os.path.join(d), HOME=os.path.join(d, 'home'))
             before = histsim.list_dir(d)
-            r = subprocess.run([sys.executable, '-m', 'geophires_x', os.path.relpath(inp, cwd) if c['id'] % 2 else inp] + ([arg] if arg else []),
+            inp_arg = os.path.relpath(inp, cwd) if c['id'] % 2 else inp
+            if c['id'] % 3 == 0:
+                os.makedirs(os.path.join(d, 'in put', '.sub'), exist_ok=True)
+                os.symlink(os.path.join(d, 'in put', '.sub'), os.path.join(cwd, 'inlnk'))
+                inp_arg = os.path.join('inlnk', '..', 'request.txt')
+            r = subprocess.run([sys.executable, '-m', 'geophires_x', inp_arg] + ([arg] if arg else []),
                                cwd=cwd, env=env, capture_output=True, text=True, timeout=300)
             after = histsim.list_dir(d)
             out = {'rc': r.returncode, 'report': None, 'json': os.path.exists(jp), 'new': sorted(after - before),
